@@ -23,7 +23,7 @@ use std::io::Write;
 fn header(prop: &str) -> &'static str {
     match prop {
         "C17" => "From TSG Require Import Model.ContainerOps.\n",
-        "C01" | "LAZY" | "C09" | "C11" | "C15" | "C20" | "C02" | "C08" | "C03" | "C04" => "From TSG Require Import Model.Run.\n",
+        "C01" | "LAZY" | "C09" | "C11" | "C15" | "C20" | "C02" | "C08" | "C03" | "C04" | "C05x" => "From TSG Require Import Model.Run.\n",
         "C18" => "From TSG Require Import Model.ParseErr.\n",
         "C16" => "From TSG Require Import Model.Globals.\n",
         "C19" => "From TSG Require Import Model.Cli.\n",
@@ -78,6 +78,7 @@ fn main() {
                 "C20" => streams::c20_gen(&mut rng, n),
                 "C02" => streams::c02_gen(&mut rng, n),
                 "C08" => streams::c08_gen(&mut rng, n),
+                "C05x" => streams::c05x_gen(&mut rng, n),
                 "C03" => streams::c03_gen(&mut rng, n),
                 "C04" => streams::c04_gen(&mut rng, n),
                 "C18" => c18::gen(&mut rng, n),
@@ -105,6 +106,7 @@ fn main() {
                 "C20" => streams::c20_replay(&j["case"]),
                 "C02" => streams::c02_replay(&j["case"]),
                 "C08" => streams::c08_replay(&j["case"]),
+                "C05x" => streams::c05x_replay(&j["case"]),
                 "C03" => streams::c03_replay(&j["case"]),
                 "C04" => streams::c04_replay(&j["case"]),
                 "C18" => c18::replay(&j["case"]),
@@ -120,6 +122,7 @@ fn main() {
             write_cases(&prop, &[case], 1, &out);
         }
         // C12 (e): observations of this process as one line per case, compared across OS processes
+        "known" => streams::known_main(&prop),
         "transcript" if prop == "C12" => c12::transcript_main(&args),
         _ => { eprintln!("usage: tsgv gen|replay <prop> [--seed S] [--n N] [--shards K] [--out DIR]"); std::process::exit(2) }
     }
